@@ -53,14 +53,17 @@ func usage() {
 // ---------------------------------------------------------------- worker
 
 type workerOut struct {
-	Result    *sym.JobResult `json:"result,omitempty"`
-	Functions []string       `json:"functions,omitempty"`
-	Models    []string       `json:"models,omitempty"`
-	StdGlob   []string       `json:"std_globals,omitempty"`
-	Solver    *smt.Stats     `json:"solver,omitempty"`
-	Terms     int            `json:"terms,omitempty"`
-	InitSec   float64        `json:"init_sec,omitempty"`
-	Fatal     string         `json:"fatal,omitempty"`
+	Result        *sym.JobResult `json:"result,omitempty"`
+	Functions     []string       `json:"functions,omitempty"`
+	Models        []string       `json:"models,omitempty"`
+	StdGlob       []string       `json:"std_globals,omitempty"`
+	Solver        *smt.Stats     `json:"solver,omitempty"`
+	Terms         int            `json:"terms,omitempty"`
+	InitSec       float64        `json:"init_sec,omitempty"`
+	Fatal         string         `json:"fatal,omitempty"`
+	Scan          []string       `json:"scan,omitempty"`
+	ScanFunctions int            `json:"scan_functions,omitempty"`
+	ScanDone      bool           `json:"scan_done,omitempty"`
 }
 
 func cmdWorker(args []string) int {
@@ -72,6 +75,7 @@ func cmdWorker(args []string) int {
 	timeout := fs.Int("timeout", 60000, "per-query timeout ms")
 	verbose := fs.Bool("v", false, "verbose")
 	prof := fs.String("cpuprofile", "", "write cpu profile")
+	scan := fs.Bool("scan-global-writes", false, "also run the syntactic scan for stores into package-level state")
 	fs.Parse(args)
 	if *prof != "" {
 		f, _ := os.Create(*prof)
@@ -153,6 +157,10 @@ func cmdWorker(args []string) int {
 		}
 	}
 	initSec := time.Since(t0).Seconds()
+	if *scan {
+		hits, nfn := eng.GlobalWriteScan()
+		emit(workerOut{Scan: hits, ScanFunctions: nfn, ScanDone: true})
+	}
 	for _, j := range jobs {
 		r := eng.RunJob(j)
 		emit(workerOut{Result: &r})
@@ -193,6 +201,9 @@ func loadFindings(prop string) []sym.Finding {
 // ---------------------------------------------------------------- driver
 
 type runSummary struct {
+	scan       []string
+	scanFns    int
+	scanDone   bool
 	jobs       int
 	results    []*sym.JobResult
 	functions  map[string]bool
@@ -228,6 +239,9 @@ func runWorkers(pd *PropDef, jobs []sym.Job, workers int, solver string, timeout
 			b, _ := json.Marshal(chunks[wi])
 			os.WriteFile(jf, b, 0o644)
 			args := []string{"worker", "--prop", pd.ID, "--jobs", jf, "--out", of, "--solver", solver, "--timeout", strconv.Itoa(timeoutMs)}
+			if wi == 0 && strings.Contains(tag, "scan") {
+				args = append(args, "--scan-global-writes")
+			}
 			cmd := exec.Command(self, args...)
 			cmd.Dir = verifDir
 			cmd.Env = append(os.Environ(), "GOFLAGS=-mod=mod", "GOPROXY=off", "GOSUMDB=off", "GOTOOLCHAIN=local")
@@ -254,6 +268,9 @@ func runWorkers(pd *PropDef, jobs []sym.Job, workers int, solver string, timeout
 				}
 				if o.Fatal != "" {
 					sum.fatal = append(sum.fatal, o.Fatal)
+				}
+				if o.ScanDone {
+					sum.scan, sum.scanFns, sum.scanDone = o.Scan, o.ScanFunctions, true
 				}
 				if o.Result != nil {
 					sum.results = append(sum.results, o.Result)
@@ -339,6 +356,9 @@ func cmdRun(args []string) int {
 	os.MkdirAll(work, 0o755)
 	if !*keep {
 		defer os.RemoveAll(work)
+	}
+	if pd.Meta != nil {
+		return runMeta(pd, *tier, seed, *workers, work)
 	}
 	jobs := pd.Jobs(*tier)
 	if *only != "" {
@@ -427,4 +447,84 @@ func isFlagSet(fs *flag.FlagSet, name string) bool {
 		}
 	})
 	return set
+}
+
+// runMeta decides a property (C18) through the write-set monitor of the jobs of other properties.
+func runMeta(pd *PropDef, tier string, seed int64, workers int, work string) int {
+	t0 := time.Now()
+	rep := newReport(pd, tier, seed)
+	total := &runSummary{functions: map[string]bool{}, models: map[string]bool{}, stdGlobals: map[string]bool{}}
+	var scanHits []string
+	scanFns := 0
+	scanDone := false
+	for _, src := range pd.Meta(tier) {
+		sp := propByID(src.ID)
+		if sp == nil {
+			rep.incon = append(rep.incon, "unknown source property "+src.ID)
+			continue
+		}
+		all := sp.Jobs(tier)
+		var jobs []sym.Job
+		for i, j := range all {
+			if src.Stride <= 1 || i%src.Stride == int(seed)%src.Stride {
+				j.ID = pd.ID + "<-" + j.ID
+				jobs = append(jobs, j)
+			}
+		}
+		if len(jobs) == 0 {
+			continue
+		}
+		tag := "-" + src.ID
+		if !scanDone {
+			tag += "-scan"
+		}
+		sum := runWorkers(sp, jobs, workers, sp.solver(), sp.timeoutMs(tier), work, tag)
+		if sum.scanDone {
+			scanHits, scanFns, scanDone = sum.scan, sum.scanFns, true
+		}
+		// keep only the write-set obligation (and whatever made a job inconclusive)
+		for _, jr := range sum.results {
+			var keep []sym.ObResult
+			for _, ob := range jr.Obligations {
+				if ob.Label == "no-write-to-package-state" {
+					keep = append(keep, ob)
+				}
+			}
+			jr.Obligations = keep
+			if len(jr.Reached) == 0 {
+				jr.Reached = []string{"(write-set only)"}
+			}
+		}
+		total.jobs += len(jobs)
+		total.results = append(total.results, sum.results...)
+		total.fatal = append(total.fatal, sum.fatal...)
+		for k := range sum.functions {
+			total.functions[k] = true
+		}
+		for k := range sum.models {
+			total.models[k] = true
+		}
+		total.solver.Queries += sum.solver.Queries
+		total.solver.SolverSec += sum.solver.SolverSec
+		if sum.initSec > total.initSec {
+			total.initSec = sum.initSec
+		}
+	}
+	rep.absorb(total, "per source property")
+	if !scanDone {
+		rep.incon = append(rep.incon, "the syntactic scan for stores into package-level state did not run")
+	}
+	for _, h := range scanHits {
+		v := &violation{Job: sym.Job{ID: "c18/syntactic-scan"}, Label: "no-store-into-package-state", Note: h, NoReplay: true, Reproduced: true}
+		dir := filepath.Join(verifDir, "replays", pd.ID)
+		os.MkdirAll(dir, 0o755)
+		v.ReplayPath = filepath.Join(dir, fmt.Sprintf("scan-%d.json", len(rep.viols)))
+		b, _ := json.MarshalIndent(map[string]interface{}{"property": pd.ID, "label": v.Label, "note": h}, "", " ")
+		os.WriteFile(v.ReplayPath, b, 0o644)
+		rep.viols = append(rep.viols, v)
+	}
+	rep.assumptions[fmt.Sprintf("syntactic scan: %d repository functions outside package initialisers, %d stores through addresses derived from package-level variables", scanFns, len(scanHits))] = true
+	rep.replayAll(work)
+	rep.wall = time.Since(t0).Seconds()
+	return rep.finish()
 }
